@@ -14,6 +14,11 @@ import JsonV.Model.Encoder
 import JsonV.Spec.Render
 import JsonV.Lemmas.EncNoop
 import JsonV.Lemmas.EncRender
+import JsonV.Lemmas.EncIff
+import JsonV.Lemmas.EncValue
+import JsonV.Lemmas.EncRaw
+import JsonV.Spec.Names
+import JsonV.Model.Validate
 import JsonV.Gen.Straight
 import JsonV.Gen.Constants
 import JsonV.Gen.Tables
@@ -172,7 +177,8 @@ example : ∃ m, smRun 10000 Machine.init [.beginArr, .num] = .ok m ∧
 /-! ## Part 3 — the Encoder model (Model/Encoder.lean; tied to encode.go by the `enc` correspondence) -/
 
 section Encoder
-open JsonV.Model.Encoder JsonV.Spec.Render JsonV.Lemmas.EncNoop JsonV.Lemmas.EncRender
+open JsonV.Model.Encoder JsonV.Spec.Render JsonV.Spec.Names JsonV.Lemmas.EncNoop JsonV.Lemmas.EncRender
+open JsonV.Lemmas.EncIff JsonV.Lemmas.EncValue JsonV.Lemmas.EncRaw
 
 /-- A rejected `WriteToken` leaves the whole modelled state — output, machine (offsets, depth, indices),
 namespaces, options — exactly as it was. -/
@@ -223,30 +229,103 @@ example : (runToks (Encoder.new { multiline := true, spaceAfterColon := true, in
       [.beginObj, .str [0x61], .beginArr, .num [0x31], .endArr, .endObj]).map (·.out)
       = some "{\n\t\"a\": [\n\t\t1\n\t]\n}\n".toUTF8.toList := by decide +kernel
 
-/-- FULL STATEMENT, not proved (validated by harness predicate (ii)): a `WriteToken` call after an
-accepted token script succeeds iff appending the token keeps the script viable, the token's string is
-well-formed UTF-8 (unless allowed) and, unless duplicates are allowed, it is not a member name already
-used in the innermost object.  Proved: accepted ⇒ viable (`out_render`), rejected ⇒ no effect (`wt_noop`). -/
-def wt_ok_iff_full : Prop :=
-  ∀ (o : Opts) (ts : List Tok) (e : Enc) (t : Tok), ts.length < 2^61 → runToks (Encoder.new o) ts = some e →
-    ((writeToken e t).2 = none ↔
-      (Viable o.maxDepth ((ts ++ [t]).map kindOf) ∧
-       (∀ s, t = .str s → (appendQuote o s).2 = false) ∧
-       (∀ s, t = .str s → o.allowDup = false → e.m.last.needObjectName = true →
-          ∀ top, e.ns.head? = some top → (unquote (appendQuote o s).1) ∉ top)))
+/-- **WriteToken succeeds iff appending the token keeps the output a prefix of a valid JSON stream.**
+For every option set, every accepted token history `ts` (from a new encoder) and every token `t`:
+`WriteToken t` succeeds iff `ts ++ [t]` is a viable prefix of a JSON stream (token order, string-only
+names, balanced delimiters, depth ≤ max), a string token passes the UTF-8 check of the options
+(`badUTF8` = AppendQuote saw ill-formed UTF-8 and `AllowInvalidUTF8` is off), and — unless
+`AllowDuplicateNames` — a member name is not one already used in the innermost open object
+(`Spec.Names.FreshName`: names tracked along the history at specification level, compared as the strings
+the emitted literals denote, i.e. after the U+FFFD substitution). -/
+theorem wt_ok_iff (o : Opts) (ts : List Tok) (e : Enc) (t : Tok) (hlen : ts.length + 1 < 2^61)
+    (h : runToks (Encoder.new o) ts = some e) :
+    (writeToken e t).2 = none ↔
+      (Viable o.maxDepth ((ts ++ [t]).map kindOf) ∧ badUTF8 o t = false ∧
+        (o.allowDup = false → FreshName o ts t)) :=
+  writeToken_ok_iff o ts e t hlen h
 
-/-- FULL STATEMENT, not proved (validated by harness predicates (ii) and (iii)): `WriteValue v` after an
-accepted script succeeds iff `v` is exactly one well-formed JSON value (surrounded by optional
-whitespace, duplicate-free and valid UTF-8 unless allowed, nested no deeper than the limit allows) and
-its first token is acceptable; the output then grows by the separator and the reformatted value. -/
-def wv_ok_iff_full : Prop :=
-  ∀ (o : Opts) (ts : List Tok) (e : Enc) (v : Bytes), ts.length < 2^61 → runToks (Encoder.new o) ts = some e →
-    ((writeValue e v).2 = none ↔
-      ∃ out rest, reformatValue o (2 * v.length + 2) [] (skipWS v) e.m.depth = .ok (out, rest) ∧ skipWS rest = [] ∧
-        (smStep o.maxDepth e.m (match valueKind v with
-          | 0x22 => Kind.str | 0x30 => Kind.num | 0x7b => Kind.beginObj | 0x5b => Kind.beginArr | _ => Kind.lit)).isOk ∧
-        (valueKind v = 0x22 → o.allowDup = false → e.m.last.needObjectName = true →
-          ∀ top, e.ns.head? = some top → unquote out ∉ top))
+/-- Both outcomes of every clause occur after a non-trivial history `{ "a" 1`:
+a fresh name is accepted, the repeated name, a non-string, ill-formed UTF-8 are rejected; with
+AllowDuplicateNames the repeated name is accepted. -/
+example :
+    let ts : List Tok := [.beginObj, .str [0x61], .num [0x31]]
+    ∀ e, runToks (Encoder.new {}) ts = some e →
+      (writeToken e (.str [0x62])).2 = none ∧ (writeToken e (.str [0x61])).2 = some .dupName ∧
+      (writeToken e .null).2 = some (.sm .nonStringName) ∧ (writeToken e (.str [0xff])).2 = some .invalidUTF8 ∧
+      FreshName {} ts (.str [0x62]) ∧ ¬ FreshName {} ts (.str [0x61]) := by
+  intro ts e h
+  have he : e = ((runToks (Encoder.new {}) ts).getD default) := by rw [h]; rfl
+  subst he
+  refine ⟨by decide +kernel, by decide +kernel, by decide +kernel, by decide +kernel, ?_, ?_⟩
+  · intro s hs _; cases hs; decide +kernel
+  · intro hf; exact absurd (hf [0x61] rfl (by decide +kernel)) (by decide +kernel)
+
+/-- **WriteValue succeeds iff the text is accepted by the encoder's validator and is acceptable here.**
+After every accepted token history: `WriteValue v` succeeds iff `reformatValue` (the model of
+encode.go:668-894: exactly one value, strings/escapes/UTF-8/duplicate names/nesting checked under the
+options, at the current depth) accepts `v` with only whitespace after it, the PDA admits the value's first
+token after `ts` (so a value in name position must be a string, and a container must fit the depth limit),
+and a raw string in name position denotes a name not yet used in the innermost open object. -/
+theorem wv_ok_iff (o : Opts) (ts : List Tok) (e : Enc) (v : Bytes) (hlen : ts.length + 2 < 2^61)
+    (h : runToks (Encoder.new o) ts = some e) :
+    (writeValue e v).2 = none ↔
+      ∃ out rest,
+        reformatValue o (2 * v.length + 2) (beforeToken e (valueKind v)) (skipWS v) e.m.depth = .ok (out, rest) ∧
+        skipWS rest = [] ∧
+        Viable o.maxDepth ((ts.map kindOf) ++ [firstKind (valueKind v)]) ∧
+        (valueKind v = 0x22 → o.allowDup = false → isNamePos (track o (PDA.init, []) ts).1 = true →
+          unquote (out.drop (beforeToken e (valueKind v)).length) ∉ innermostNames o ts) := by
+  obtain ⟨hI, hrun⟩ := runToks_inv o ts (encInv_new o) (by omega) h
+  rw [writeValue_iff hI (by omega) v]
+  have hv : Viable o.maxDepth ((ts.map kindOf) ++ [firstKind (valueKind v)]) ↔
+      (step o.maxDepth (track o (PDA.init, []) ts).1 (firstKind (valueKind v))).isSome = true := by
+    simp only [Viable, run_snoc, hrun, Option.bind]
+  simp only [hv, innermost_eq]
+
+/-- Non-vacuity of `wv_ok_iff`: accepted and rejected raw values after `[ 1`. -/
+example : ∀ e, runToks (Encoder.new {}) [.beginArr, .num [0x31]] = some e →
+    (writeValue e "{\"a\":[true,null]}".toUTF8.toList).2 = none ∧
+    (writeValue e "{\"a\":1,\"a\":2}".toUTF8.toList).2 = some .dupName ∧
+    (writeValue e "[1,".toUTF8.toList).2 = some .unexpectedEOF ∧
+    (writeValue e "1 2".toUTF8.toList).2 = some .invalidChar := by
+  intro e h
+  have he : e = ((runToks (Encoder.new {}) [.beginArr, .num [0x31]]).getD default) := by rw [h]; rfl
+  subst he
+  decide +kernel
+
+/-- **Raw values are rendered like their tokens.**  After every accepted token history `ts`, an accepted
+`WriteValue v` leaves as output exactly `render o (ts ++ valueToks o v)`: the raw text, whatever its
+own whitespace and escapes, is emitted as the PDA-derived rendering of its tokens (`valueToks`: literals,
+unescaped strings, number texts, delimiters) under the options — separators, `SpaceAfterColon/Comma`,
+`Multiline` indentation at the right depth, strings re-quoted by `appendQuote`, a newline after a
+top-level value.  All layouts, all options. -/
+theorem out_render_value (o : Opts) (ts : List Tok) (e e' : Enc) (v : Bytes) (hlen : ts.length + 2 < 2^61)
+    (h : runToks (Encoder.new o) ts = some e) (hw : writeValue e v = (e', none)) :
+    e'.out = render o (ts ++ valueToks o v) := by
+  obtain ⟨hI, hrun⟩ := runToks_inv o ts (encInv_new o) (by omega) h
+  obtain ⟨toks, rest, ht, hout⟩ := writeValue_render hI (by omega) v hw
+  have hvt : valueToks o v = toks := by simp [valueToks, ht]
+  rw [hvt, hout, (out_render o ts e (by omega) h).1, render, render, renderFrom_append o ts toks _ _ hrun]
+
+/-- Non-vacuity: a raw object with inner whitespace and an escaped name, written inside a token-written
+array under Multiline; its tokens and the bytes. -/
+example :
+    let o : Opts := { multiline := true, spaceAfterColon := true, indent := [0x09] }
+    let v := "{ \"\\u0061\" : [1 , true] }".toUTF8.toList
+    valueToks o v = [.beginObj, .str [0x61], .beginArr, .num [0x31], .tru, .endArr, .endObj] ∧
+    ((runToks (Encoder.new o) [.beginArr, .null]).map fun e => (writeValue e v).1.out) =
+      some "[\n\tnull,\n\t{\n\t\t\"a\": [\n\t\t\t1,\n\t\t\ttrue\n\t\t]\n\t}".toUTF8.toList := by
+  decide +kernel
+
+/-- FULL STATEMENT, not proved (validated by the `enc valid` cross-check of the harness between the two
+Lean models and by predicate (ii) against an independent Go parser): the encoder's validator
+`reformatValue` and the decoder-side validator of slice C01 (`Model/Validate.lean`, proved sound for the
+grammar in Props/C01 `valid_sound`) accept the same texts.  With it, `wv_ok_iff` reads "v is one valid JSON
+value under the options". -/
+def reformat_valid_full : Prop :=
+  ∀ (o : Opts) (v : Bytes), o.maxDepth = JsonV.Model.Validate.maxNestingDepth →
+    ((∃ out rest, reformatValue o (2 * v.length + 2) [] (skipWS v) 1 = .ok (out, rest) ∧ skipWS rest = []) ↔
+      JsonV.Model.Validate.isValid ⟨o.allowInvalidUTF8, o.allowDup⟩ v = true)
 
 end Encoder
 
